@@ -4,9 +4,12 @@
 package query
 
 import (
+	"slices"
+
 	. "github.com/apmckinlay/gsuneido/compile/ast"
 	tok "github.com/apmckinlay/gsuneido/compile/tokens"
 	. "github.com/apmckinlay/gsuneido/core"
+	"github.com/apmckinlay/gsuneido/core/types"
 	"github.com/apmckinlay/gsuneido/util/assert"
 	"github.com/apmckinlay/gsuneido/util/slc"
 )
@@ -144,6 +147,23 @@ func renameArgs(args []Arg, r *Rename) []Arg {
 
 var aFolder Folder
 
+// foldNary is aFolder.Nary except that it does not fold arithmetic
+// where a column was replaced by a value that is not a number.
+// The folder rejects that ("cannot do math on String literal")
+// which is meant for literals in source code.
+func foldNary(token tok.Token, exprs []Expr) Expr {
+	if token != tok.Or && token != tok.And && token != tok.Cat &&
+		slices.ContainsFunc(exprs, nonNumConst) {
+		return &Nary{Tok: token, Exprs: exprs}
+	}
+	return aFolder.Nary(token, exprs)
+}
+
+func nonNumConst(e Expr) bool {
+	c, ok := e.(*Constant)
+	return ok && c.Val.Type() != types.Number
+}
+
 // replaceExpr is used by Where Transform on Extend.
 // It replaces identifiers in an expression with expressions.
 // It does not modify the original expression.
@@ -169,12 +189,22 @@ func replaceExpr(expr Expr, from []string, to []Expr, clone bool) Expr {
 		if newExpr == expr && !clone {
 			return expr
 		}
+		if (e.Tok == tok.Add || e.Tok == tok.Sub || e.Tok == tok.BitNot ||
+			e.Tok == tok.Div) && nonNumConst(newExpr) {
+			return &Unary{Tok: e.Tok, E: newExpr} // see foldNary
+		}
 		return aFolder.Unary(e.Tok, newExpr)
 	case *Binary:
 		lhs := replaceExpr(e.Lhs, from, to, clone)
 		rhs := replaceExpr(e.Rhs, from, to, clone)
 		if lhs == e.Lhs && rhs == e.Rhs && !clone {
 			return expr
+		}
+		if (e.Tok == tok.Mod || e.Tok == tok.LShift || e.Tok == tok.RShift) &&
+			(nonNumConst(lhs) || nonNumConst(rhs)) {
+			// the folder rejects non-number literals in arithmetic,
+			// but this is a column replaced by its value, not a literal
+			return &Binary{Lhs: lhs, Tok: e.Tok, Rhs: rhs}
 		}
 		// if it could be evaluated raw then we need to make a copy
 		return aFolder.Binary(lhs, e.Tok, rhs)
@@ -239,7 +269,7 @@ func replaceExpr(expr Expr, from []string, to []Expr, clone bool) Expr {
 				}
 				newExprs = slc.Clone(e.Exprs) // because folding modifies it
 			}
-			return aFolder.Nary(e.Tok, newExprs)
+			return foldNary(e.Tok, newExprs)
 		}
 		exprs := replaceExprs(e.Exprs, from, to, clone)
 		if exprs == nil && !clone {
@@ -248,7 +278,7 @@ func replaceExpr(expr Expr, from []string, to []Expr, clone bool) Expr {
 		if exprs == nil {
 			exprs = slc.Clone(e.Exprs) // because folding modifies it
 		}
-		return aFolder.Nary(e.Tok, exprs)
+		return foldNary(e.Tok, exprs)
 	case *Call:
 		fn := replaceExpr(e.Fn, from, to, clone)
 		args := replaceArgs(e.Args, from, to, clone)
